@@ -310,8 +310,23 @@ fn roundtrips(rep: &Reporter) {
 			check_response(rep, local, &rp, id, Some(p), None);
 			for c in codes {
 				for data in [None, Some(p)] {
-					// `"data":null` and an absent data member are the same value (Option) in the library's model
+					// `"data":null`: judged separately (the parser maps a null data member to "no data")
 					if data.map_or(false, |d| d == "null") {
+						if c == -32000 && pi == 0 {
+							let eo = ErrorObject::owned(c, "m", Some(RawValue::from_string("null".into()).unwrap()));
+							let txt = serde_json::to_string(&eo).unwrap();
+							let back = serde_json::from_str::<ErrorObjectOwned>(&txt);
+							match back {
+								Ok(b) if b == eo => {}
+								Ok(b) if b.code() == c && b.message() == "m" && b.data().is_none() => rep.violation(
+									"roundtrip:ErrorObject:data-null-becomes-absent",
+									&format!("error object with data = JSON null serialises as {txt} and parses back without data (not equal, re-serialises differently)"),
+									json!({"engine":"ENUM","part":"roundtrip","kind":"ErrorObject","text": txt}),
+								),
+								other => rep.violation("roundtrip:ErrorObject:unequal", &format!("{txt} -> {other:?}"), json!({"kind":"ErrorObject","text": txt})),
+							}
+							local.case(hash_of(&("eo-null", &txt)), true, "roundtrip:ErrorObject:data-null");
+						}
 						continue;
 					}
 					let eo = match data {
